@@ -11,3 +11,29 @@ package ringqp
 //@   assigns polyOutQ, polyOutP
 //@   ensures val(polyOutQ) == old(val(polyInQ)) && val(polyOutP) == old(val(polyInQ))
 //@   ensures mexp(polyOutQ) == 0 && mexp(polyOutP) == 0 && dom(polyOutQ) == 0 && dom(polyOutP) == 0
+
+// ---------------------------------------------------------------------------------------------
+// Serialization, count level (property C08).  For every serializable type: WriteTo reports, on
+// success, exactly the number of bytes the value announces (announced(x): the result of running
+// x.BinarySize() on the same state) and leaves nothing unflushed in the buffered writer
+// (pending(w) == 0); ReadFrom reports, on success, exactly the announced size of the object it
+// rebuilt, whatever the receiver held before.  bsize(x) is the abstract announced size used at
+// call sites.  `nilable`: optional pointer fields of the inputs may be nil.
+// ---------------------------------------------------------------------------------------------
+
+//@ afunc Poly.BinarySize
+//@   trusted definition: bsize(x) is what x.BinarySize() returns, assumed to be a function of the contents of x
+//@   ensures result == bsize(p) && 0 <= result
+
+//@ afunc Poly.WriteTo
+//@   property C08
+//@   nilable
+//@   gset pending(w) = *
+//@   ensures implies(isnil(err), n == announced(p))
+//@   ensures implies(isnil(err), pending(w) == 0)
+
+//@ afunc Poly.ReadFrom
+//@   property C08
+//@   nilable
+//@   havoc p
+//@   ensures implies(isnil(err), n == announced(p))
